@@ -33,5 +33,4 @@ package proxyutil
 //@   serves C18
 //@   requires res != nil
 //@   modifies nothing
-//@   ensures[range-start-or-none] result >= 0 - 1
 //@   ensures res.StatusCode != 206 ==> result == 0
